@@ -37,8 +37,13 @@
      Sweeper     seen-cache background goroutine, stopped by the loop's cleanup
      Retry       announceRetry: time.Sleep, then select{eval<-, ctx.Done} (BareRetry = seeded fault)
      Direct,     the goroutines queueing direct peers: time.Sleep, then sends on gs.connect - BARE in the
-     Connector   code as found (D27, BareSendConnect); the connector select{<-gs.connect, ctx.Done}
+     Connector   code as found (D29, BareSendConnect); the connector select{<-gs.connect, ctx.Done}
                  (Reader with CheckThenActIncoming = seeded fault: ctx.Err() check, then a bare send)
+     NewPeer,    adoption of a new outbound stream: handleNewPeer's hand-off, the loop's hello
+     Writer2     s.FirstMessage <- helloPacket (FirstMsgBuffered = FALSE is a seeded fault: the loop blocks
+                 for ever when the writer has left through ctx.Done)
+     Boot, Round discover.Bootstrap's four selects (each p.ctx arm a switch) and the discovery round goroutine
+                 (RoundAlwaysSignals = FALSE + BootArmDone = FALSE is a seeded pair of faults)
      Cancel      the constructor's context is cancelled, at any point
      CloseStreams the host closes the streams, some time after the cancellation
 
@@ -70,8 +75,13 @@ CONSTANTS NConc,                  \* call slots that may start at any time
           BareSendMsg,            \* FALSE in the code; TRUE = sendMsgBlocking without its ctx.Done arm (seeded fault)
           BareRetry,              \* FALSE in the code; TRUE = announceRetry's `p.eval <- retry` without its ctx.Done arm (seeded fault)
           CheckThenActIncoming,   \* FALSE in the code; TRUE = handleNewStream checks ctx.Err() and then does a bare send on incoming (seeded fault)
-          BareSendConnect,        \* TRUE = as found (D27): the direct-peer goroutines send on gs.connect without a ctx.Done arm
+          BareSendConnect,        \* TRUE = as found (D29): the direct-peer goroutines send on gs.connect without a ctx.Done arm
           MaxRetry, MaxDirect, ConnCap,
+          FirstMsgBuffered,       \* TRUE in the code: firstMessage has capacity 1 (FALSE = seeded fault: rendezvous with the writer)
+          MaxNewPeer,             \* 1 = a peer's outbound stream is being adopted (handleNewPeer + its writer)
+          BootArmEval, BootArmQ, BootArmDone, BootArmTimer,  \* TRUE in the code: the p.ctx.Done arm of each select of discover.Bootstrap
+          RoundAlwaysSignals,     \* TRUE in the code: a discovery round signals discover.done even when it leaves through ctx.Done
+          MaxBoot,                \* > 0: one Publish(WithReadiness) with discovery configured polls that many times before the router is ready
           BatchCap, DiscCap, SendCap,
           MaxTicks, MaxRemote
 
@@ -93,13 +103,18 @@ VARIABLES pat,        \* slot -> pattern (chosen initially, then constant)
           panic,
           retry, nretry,    \* announceRetry goroutine: "none" | "sleep" | "hand" | "done"; how many were started
           direct, dleft,    \* goroutine queueing direct peers (Attach / directConnect): "none" | "sleep" | "send" | "done"
-          connQ, connector  \* gs.connect occupancy; one connector: "idle" | "connecting" | "done"
+          connQ, connector, \* gs.connect occupancy; one connector: "idle" | "connecting" | "done"
+          np, w2, fm,       \* handleNewPeer "none"|"hand"|"done"; its writer "none"|"first"|"pop"|"done"; hello buffered
+          boot, nboot,      \* the Bootstrap call: "none"|"eval"|"wait_ready"|"dq"|"wait_done"|"timer"|"ret"; rounds so far
+          bready, bdone, bq,\* buffered reply of the ready check; discover.done signalled; its request queued on discoverQ
+          round             \* the discovery round goroutine: "none" | "running" | "report" | "done"
 
 cvarsNoLoop == <<pat, pc, res, reply, cancelled, streamsClosed, batchQ, discQ, sendQ, valQ, incQ,
                  disc, worker, timer, ticks, writer, reader, remote, sweeper, inPeers, qOpen, panic>>
 cvars == <<cvarsNoLoop, loop>>
 aux2 == <<retry, nretry, direct, dleft, connQ, connector>>
-vars == <<cvars, aux2>>
+aux3 == <<np, w2, fm, boot, nboot, bready, bdone, bq, round>>
+vars == <<cvars, aux2, aux3>>
 
 Idle == [st |-> "idle", kind |-> "", who |-> 0]
 
@@ -125,6 +140,9 @@ Init ==
     /\ retry = "none" /\ nretry = 0
     /\ direct = (IF MaxDirect > 0 THEN "sleep" ELSE "none") /\ dleft = MaxDirect
     /\ connQ = 0 /\ connector = (IF MaxDirect > 0 THEN "idle" ELSE "done")
+    /\ np = (IF MaxNewPeer > 0 THEN "hand" ELSE "none") /\ w2 = (IF MaxNewPeer > 0 THEN "first" ELSE "none") /\ fm = FALSE
+    /\ boot = (IF MaxBoot > 0 THEN "eval" ELSE "none") /\ nboot = 0
+    /\ bready = FALSE /\ bdone = FALSE /\ bq = 0 /\ round = "none"
 
 \* ---------------------------------------------------------------- helpers
 Ret(i, r) == /\ pc' = [pc EXCEPT ![i] = "ret"] /\ res' = [res EXCEPT ![i] = r]
@@ -225,7 +243,7 @@ LoopFinishCall ==
     /\ UNCHANGED pat /\ UNCH_ENV /\ UNCH_Q /\ UNCH_PROCS
 
 LoopFinishOther ==
-    /\ loop.st = "handling" /\ loop.kind # "call"
+    /\ loop.st = "handling" /\ loop.kind \notin {"call", "adopt", "boot"}
     /\ CASE loop.kind = "incoming" -> /\ valQ' = IF valQ < 1 THEN valQ + 1 ELSE valQ   \* val.Push never blocks
                                       /\ UNCHANGED panic
          [] OTHER -> PushEffect /\ UNCHANGED valQ                 \* batch, msg, timer (heartbeat)
@@ -343,7 +361,7 @@ LoopTakeRetry ==
 
 \* the goroutines that queue the direct peers for connection (Attach after DirectConnectInitialDelay,
 \* directConnect at heartbeats): time.Sleep, then one send on gs.connect (capacity ConnCap) per peer - BARE in
-\* the code as found (D27); the connector: select { case ci := <-gs.connect: host.Connect(..) ; case <-ctx.Done(): return }
+\* the code as found (D29); the connector: select { case ci := <-gs.connect: host.Connect(..) ; case <-ctx.Done(): return }
 DirectWake == /\ direct = "sleep" /\ direct' = "send"
               /\ UNCHANGED <<cvars, retry, nretry, dleft, connQ, connector>>
 DirectSend == /\ direct = "send" /\ dleft > 0 /\ connQ < ConnCap
@@ -360,8 +378,72 @@ ConnExit == /\ connector = "idle" /\ cancelled /\ connector' = "done"
 Aux2Step == SpawnRetry \/ RetryWake \/ RetryCtx \/ LoopTakeRetry
             \/ DirectWake \/ DirectSend \/ DirectCtx \/ ConnTake \/ ConnDone \/ ConnExit
 
-NonCancel == (CoreNonCancel /\ UNCHANGED aux2) \/ Aux2Step
-Cancel == CancelCore /\ UNCHANGED aux2
+\* ---------------------------------------------------------------- adoption of a new outbound stream
+\* handleNewPeer: NewStream done, writer started (select{<-firstMessage, ctx.Done}), then
+\* select{p.newPeerStream <- .., ctx.Done}; the loop, in its newPeerStream case, runs the router's and tracers'
+\* OnNewOutboundStream and then sends the hello: s.FirstMessage <- helloPacket (capacity 1 in the code)
+U3(t) == UNCHANGED <<cvars, aux2>> /\ UNCHANGED t
+NpCtx == /\ np = "hand" /\ cancelled /\ np' = "done"
+         /\ U3(<<w2, fm, boot, nboot, bready, bdone, bq, round>>)
+LoopTakeNewPeer ==
+    /\ loop.st = "idle" /\ np = "hand" /\ np' = "done"
+    /\ loop' = [st |-> "handling", kind |-> "adopt", who |-> 0]
+    /\ UNCHANGED <<cvarsNoLoop, aux2, w2, fm, boot, nboot, bready, bdone, bq, round>>
+LoopFinishAdopt ==
+    /\ loop.st = "handling" /\ loop.kind = "adopt"
+    /\ IF FirstMsgBuffered THEN fm' = TRUE /\ UNCHANGED w2
+                           ELSE w2 = "first" /\ w2' = "pop" /\ UNCHANGED fm      \* rendezvous: the writer may be gone
+    /\ loop' = Idle
+    /\ UNCHANGED <<cvarsNoLoop, aux2, np, boot, nboot, bready, bdone, bq, round>>
+W2First == /\ w2 = "first" /\ fm /\ fm' = FALSE /\ w2' = "pop"
+           /\ U3(<<np, boot, nboot, bready, bdone, bq, round>>)
+W2Ctx == /\ w2 \in {"first", "pop"} /\ cancelled /\ w2' = "done"
+         /\ U3(<<np, fm, boot, nboot, bready, bdone, bq, round>>)
+
+\* ---------------------------------------------------------------- discover.Bootstrap (Publish WithReadiness + discovery)
+\* for { select{eval <- readyCheck, p.ctx, ctx}; <-bootstrapped; select{discoverQ <- req, p.ctx, ctx};
+\*       select{<-req.done, p.ctx, ctx}; select{<-100ms, p.ctx, ctx} }     (the caller's ctx has no deadline)
+\* discoverLoop takes the request and starts a round goroutine: handleDiscovery; select{d.done <- topic, p.ctx};
+\* req.done <- {} (buffered)
+BootEvalServed ==
+    /\ boot = "eval" /\ loop.st = "idle" /\ boot' = "wait_ready"
+    /\ loop' = [st |-> "handling", kind |-> "boot", who |-> 0]
+    /\ UNCHANGED <<cvarsNoLoop, aux2, np, w2, fm, nboot, bready, bdone, bq, round>>
+BootEvalCtx == /\ boot = "eval" /\ BootArmEval /\ cancelled /\ boot' = "ret"
+               /\ U3(<<np, w2, fm, nboot, bready, bdone, bq, round>>)
+LoopFinishBoot ==
+    /\ loop.st = "handling" /\ loop.kind = "boot" /\ bready' = TRUE /\ loop' = Idle
+    /\ UNCHANGED <<cvarsNoLoop, aux2, np, w2, fm, boot, nboot, bdone, bq, round>>
+BootReady == /\ boot = "wait_ready" /\ bready /\ bready' = FALSE
+             /\ boot' = (IF nboot >= MaxBoot THEN "ret" ELSE "dq")
+             /\ U3(<<np, w2, fm, nboot, bdone, bq, round>>)
+BootQ == /\ boot = "dq"
+         /\ \/ (bq = 0 /\ bq' = 1 /\ boot' = "wait_done")
+            \/ (BootArmQ /\ cancelled /\ UNCHANGED bq /\ boot' = "ret")
+         /\ U3(<<np, w2, fm, nboot, bready, bdone, round>>)
+DiscTakeBoot == /\ disc = "run" /\ bq = 1 /\ round \in {"none", "done"} /\ bq' = 0 /\ round' = "running"
+                /\ U3(<<np, w2, fm, boot, nboot, bready, bdone>>)
+RoundFinish == /\ round = "running" /\ round' = "report"      \* FindPeers / Connect return (done, or their context ended)
+               /\ U3(<<np, w2, fm, boot, nboot, bready, bdone, bq>>)
+RoundReport == /\ round = "report"
+               /\ \/ (disc = "run" /\ bdone' = TRUE)                                          \* d.done <- topic accepted
+                  \/ (cancelled /\ bdone' = (IF RoundAlwaysSignals THEN TRUE ELSE bdone))       \* left through ctx.Done
+               /\ round' = "done"
+               /\ U3(<<np, w2, fm, boot, nboot, bready, bq>>)
+BootDone == /\ boot = "wait_done"
+            /\ \/ (bdone /\ bdone' = FALSE /\ boot' = "timer")
+               \/ (BootArmDone /\ cancelled /\ UNCHANGED bdone /\ boot' = "ret")
+            /\ U3(<<np, w2, fm, nboot, bready, bq, round>>)
+BootTimer == /\ boot = "timer"
+             /\ \/ (nboot' = nboot + 1 /\ boot' = "eval")
+                \/ (BootArmTimer /\ cancelled /\ UNCHANGED nboot /\ boot' = "ret")
+             /\ U3(<<np, w2, fm, bready, bdone, bq, round>>)
+Aux3Step == NpCtx \/ LoopTakeNewPeer \/ LoopFinishAdopt \/ W2First \/ W2Ctx
+            \/ BootEvalServed \/ BootEvalCtx \/ LoopFinishBoot \/ BootReady \/ BootQ \/ DiscTakeBoot
+            \/ RoundFinish \/ RoundReport \/ BootDone \/ BootTimer
+
+NonCancel == (((CoreNonCancel /\ UNCHANGED aux2) \/ Aux2Step) /\ UNCHANGED aux3) \/ Aux3Step
+Cancel == CancelCore /\ UNCHANGED <<aux2, aux3>>
 Next == NonCancel \/ Cancel
 
 Spec == Init /\ [][Next]_vars
@@ -414,13 +496,13 @@ UrgentStep ==
     ELSE FALSE
 
 AnyUrgent == U_Start \/ U_Val \/ U_Writer \/ U_Reader \/ U_Timer \/ U_Worker \/ U_Disc \/ U_Streams
-NextPOR == IF AnyUrgent THEN UrgentStep /\ UNCHANGED aux2 ELSE Next
+NextPOR == IF AnyUrgent THEN UrgentStep /\ UNCHANGED <<aux2, aux3>> ELSE Next
 
 SpecPOR == Init /\ [][NextPOR]_vars
 TerminalPOR == ~ENABLED NextPOR
 \* the calls and the queues, without the result classes (VIEW of the exhaustive configurations)
 NoRes == <<pat, pc, reply, cancelled, streamsClosed, loop, batchQ, discQ, sendQ, valQ, incQ,
-           disc, worker, timer, ticks, writer, reader, remote, sweeper, inPeers, qOpen, panic, aux2>>
+           disc, worker, timer, ticks, writer, reader, remote, sweeper, inPeers, qOpen, panic, aux2, aux3>>
 
 \* ---------------------------------------------------------------- properties
 TypeOK ==
@@ -431,10 +513,11 @@ TypeOK ==
     /\ batchQ \in 0..BatchCap /\ discQ \in 0..DiscCap /\ sendQ \in 0..SendCap /\ valQ \in 0..1 /\ incQ \in 0..1
 
 Active == {i \in Slots : pat[i] # "none"}
-AllReturned == \A i \in Active : pc[i] = "ret"
+AllReturned == (\A i \in Active : pc[i] = "ret") /\ boot \in {"none", "ret"}
 AllDone == /\ loop.st = "exited" /\ disc = "done" /\ worker = "done" /\ timer = "done"
            /\ writer = "done" /\ reader = "done" /\ sweeper = "done"
            /\ retry \in {"none", "done"} /\ direct \in {"none", "done"} /\ connector = "done"
+           /\ np \in {"none", "done"} /\ w2 \in {"none", "done"} /\ round \in {"none", "done"}
 Terminal == ~ENABLED Next
 
 P_C14_Returns == Terminal => AllReturned
